@@ -828,6 +828,7 @@ class ShutdownMon(Monitor):
         actor = dev_by_id(w, w.hub.actor)
         state = {n: v[0] for n, v in self.pre.items()}
         i = 0
+        ended_here = None      # machine whose work order ended in the log entry just before this one
         while i < len(tl):
             t = tl[i]
             k = t[0]
@@ -864,30 +865,40 @@ class ShutdownMon(Monitor):
                     if j >= len(tl) or tl[j] != ('probe_restored', name, n):
                         raise Violation('callbacks', f'{name}: restored callbacks not once each in order')
                 i += nprobe
-                o = self.orders.get(name)
-                if o is not None:
-                    o[2] = True       # restored while an order is active (by end_work or by someone else)
+                for o in self.orders.get(name, []):
+                    if ended_here == name:
+                        raise Violation('order_keeps_down', f'{name} was put back into service by the end of another work '
+                                                            f'order while order {o[0]} (started {o[1]}) is still in progress')
+                    o[2] = True       # restored by someone else (an operation) while an order is active
             elif k == 'received' and t[1] in state and not state[t[1]]:
                 raise Violation('accept_while_down', f'{t[1]} accepted part {t[2]} while shut down')
             elif k == 'gave' and t[6] and t[2] == -1 and actor is not None and actor.name in state \
                     and not state[actor.name]:
                 raise Violation('release_while_down', f'{actor.name} released part {t[4]} while shut down')
             elif k == 'start_work':
-                self.orders[t[1]] = [t[2], now, False]
+                self.orders.setdefault(t[1], []).append([t[2], now, False])
             elif k == 'end_work':
-                o = self.orders.pop(t[1], None)
+                lst = self.orders.get(t[1], [])
+                o = next((x for x in lst if x[0] == t[2]), None)
                 if o is not None:
+                    lst.remove(o)
+                    if not lst:
+                        self.orders.pop(t[1], None)
                     dur = w.dev[t[1]].wo_table.get(o[0], (0, 0, 0))[1]
                     if now != o[1] + dur:
                         raise Violation('order_duration', f'{t[1]}: order {o[0]} started {o[1]} ended {now}, duration {dur}')
                     w.facts.append('order_completed')
+                ended_here = t[1]
+                i += 1
+                continue
+            ended_here = None
             i += 1
         for p in self.procs(w):
             if state[p.name] != p.is_operational():
                 raise Violation('callbacks', f'{p.name}: operational={p.is_operational()} but callbacks say {state[p.name]}')
-            o = self.orders.get(p.name)
-            if o is not None and not o[2] and p.is_operational():
-                raise Violation('order_keeps_down', f'{p.name} is operational during work order {o[0]}')
+            for o in self.orders.get(p.name, []):
+                if not o[2] and p.is_operational():
+                    raise Violation('order_keeps_down', f'{p.name} is operational during work order {o[0]}')
         # failure event with no callback at all
         if label[0] == 'ev' and ev_action_name(ev) == '_fail' and not ev.cancelled:
             o = ev_owner(ev)
